@@ -399,6 +399,10 @@ impl Ctx {
         let base = if self.thorough { thorough as f64 * self.thorough_mult } else { quick as f64 };
         ((base * self.scale).ceil() as u64).max(1)
     }
+    /// minimum-observation thresholds apply only to full-size native runs
+    pub fn strict(&self) -> bool {
+        !self.miri && self.only.is_none() && self.scale >= 1.0
+    }
     pub fn wants(&self, group: &str, idx: u64) -> bool {
         match &self.only {
             None => true,
